@@ -14,9 +14,11 @@ package main
 
 import (
 	"bytes"
+	"context"
 	"fmt"
 	"io"
 	"strings"
+	"time"
 
 	"github.com/fxamacker/cbor/v2"
 	"go.flow.arcalot.io/pluginsdk/atp"
@@ -43,6 +45,7 @@ func dsDescribeCmd(a Args) {
 	for _, t := range dsFixedScopes() {
 		dsScopeGroupOf(s, d, t)
 	}
+	dsPluginGroupOf(s, d, dsFixedPlugin())
 	for i := 0; i < n; i++ {
 		switch {
 		case i%7 == 6:
@@ -159,7 +162,8 @@ func dsFixedScopes() []*dsTy {
 		}}}}}
 	}
 	// references into another namespace in every position (bound to an older provider first)
-	nsAll := &dsTy{T: "scope", Root: "N", Objs: []dsNamedObj{{"N", &dsTy{T: "obj", ID: "N", Props: append(dsNsProps(), dsNamedProp{"s", &dsProp{Ty: str()}})}}}}
+	nsAll := &dsTy{T: "scope", Root: "N", Objs: []dsNamedObj{{"N", &dsTy{T: "obj", ID: "N", Props: append(dsNsProps("M"), dsNamedProp{"s", &dsProp{Ty: str()}})}},
+		{"M", &dsTy{T: "obj", ID: "M", Props: []dsNamedProp{{"w", &dsProp{Ty: str()}}, {"u", &dsProp{Ty: &dsTy{T: "int"}}}}}}}}
 	return []*dsTy{mk(false, nil), mk(true, nil), mk(true, hx.StrP("switched off")), mk(false, hx.StrP("switched off")), nsAll}
 }
 
@@ -277,6 +281,28 @@ func dsScopeGroupOf(s *dsSink, d *dsGen, t *dsTy) {
 				s.finding(dsFinding{Prop: "C09", What: "rebuilt scope cannot be linked like the original: " + ok.Msg, Cases: []int{id1}, Schema: t})
 				continue
 			}
+			// the other order of "apply the namespaces yourself": the provider first, the scope itself last
+			var other *schema.ScopeSchema
+			rev := hx.Guard(func() hx.Result {
+				x, err := schema.DescribeScope().Unserialize(w)
+				if err != nil {
+					return hx.ErrResult(err)
+				}
+				other = x.(*schema.ScopeSchema)
+				other.ApplyNamespace(foreign.Objects(), dsForeignNS)
+				other.ApplySelf()
+				if err := other.ValidateReferences(); err != nil {
+					return hx.ErrResult(err)
+				}
+				return hx.Result{R: "ok"}
+			})
+			s.count("raw-rebuild:namespace-first:" + rev.R)
+			if rev.R != "ok" {
+				s.finding(dsFinding{Prop: "C09", What: "a scope rebuilt from its description (" + leg.name + ") cannot be linked when the external namespace is applied before the scope itself: " + rev.R + " " + rev.Msg,
+					Cases: []int{id1}, Schema: t})
+			} else {
+				dsBehaviour(s, d, t, orig, other, leg.name+":namespace-first", false)
+			}
 		}
 		dsBehaviour(s, d, t, orig, rebuilt, leg.name, !hasNS)
 	}
@@ -354,7 +380,77 @@ func dsReadSchema(desc any) (*schema.SchemaSchema, error) {
 }
 
 func dsPluginGroup(s *dsSink, d *dsGen) {
-	p := d.plugin()
+	dsPluginGroupOf(s, d, d.plugin())
+}
+
+// dsFixedPlugin: steps with signal handlers only, emitters only, both, and none.
+func dsFixedPlugin() *dsPlugin {
+	sc := func(id string) *dsTy {
+		return &dsTy{T: "scope", Root: id, Objs: []dsNamedObj{{id, &dsTy{T: "obj", ID: id, Props: []dsNamedProp{
+			{"a", &dsProp{Ty: &dsTy{T: "str", Min: hx.IntP(1)}, Required: true}}, {"b", &dsProp{Ty: &dsTy{T: "int"}}}}}}}}
+	}
+	sig := func(id string) []dsKeyed[*dsSignal] {
+		return []dsKeyed[*dsSignal]{{id, &dsSignal{ID: id, Data: sc("D" + id)}}}
+	}
+	out := []dsKeyed[*dsOutput]{{"success", &dsOutput{Schema: sc("Out")}}}
+	return &dsPlugin{Steps: []dsKeyed[*dsStep]{
+		{"handlers-only", &dsStep{ID: "handlers-only", Input: sc("In"), Outputs: out, Handlers: sig("recv")}},
+		{"emitters-only", &dsStep{ID: "emitters-only", Input: sc("In"), Outputs: out, Emitters: sig("emit")}},
+		{"both", &dsStep{ID: "both", Input: sc("In"), Outputs: out, Handlers: sig("recv"), Emitters: sig("emit")}},
+		{"none", &dsStep{ID: "none", Input: sc("In"), Outputs: out}},
+		{"emitters-empty-handlers", &dsStep{ID: "emitters-empty-handlers", Input: sc("In"), Outputs: out, Handlers: []dsKeyed[*dsSignal]{}, Emitters: sig("emit")}},
+	}}
+}
+
+// dsHelloViaServer serves the callable schema with the real ATP server and reads the schema with the
+// real client.
+func dsHelloViaServer(cs *schema.CallableSchema) (*schema.SchemaSchema, error) {
+	toServerR, toServerW := io.Pipe()
+	fromServerR, fromServerW := io.Pipe()
+	ctx, cancel := context.WithCancel(context.Background())
+	defer cancel()
+	serverDone := make(chan struct{})
+	go func() {
+		defer close(serverDone)
+		atp.RunATPServer(ctx, toServerR, fromServerW, cs)
+	}()
+	type res struct {
+		s   *schema.SchemaSchema
+		err error
+	}
+	ch := make(chan res, 1)
+	client := atp.NewClient(&dsPipeChannel{r: fromServerR, w: toServerW})
+	go func() {
+		sc, err := client.ReadSchema()
+		ch <- res{sc, err}
+	}()
+	var out res
+	select {
+	case out = <-ch:
+	case <-time.After(10 * time.Second):
+		out = res{nil, fmt.Errorf("harness: ReadSchema against the real server did not return within 10s")}
+	}
+	go func() { _ = client.Close() }()
+	cancel()
+	_ = toServerW.Close()
+	_ = fromServerR.Close()
+	select {
+	case <-serverDone:
+	case <-time.After(5 * time.Second):
+	}
+	return out.s, out.err
+}
+
+type dsPipeChannel struct {
+	r io.ReadCloser
+	w io.WriteCloser
+}
+
+func (c *dsPipeChannel) Read(p []byte) (int, error)  { return c.r.Read(p) }
+func (c *dsPipeChannel) Write(p []byte) (int, error) { return c.w.Write(p) }
+func (c *dsPipeChannel) Close() error                { _ = c.w.Close(); return c.r.Close() }
+
+func dsPluginGroupOf(s *dsSink, d *dsGen, p *dsPlugin) {
 	_, scopes := p.scopes()
 	for _, sc := range scopes {
 		dsStats(s, sc)
@@ -373,8 +469,31 @@ func dsPluginGroup(s *dsSink, d *dsGen) {
 		return
 	}
 	first := hx.Canon(hx.Enc(desc))
+	// the same plugin as a plugin author declares it: callable steps, described by the callable schema
+	var callable *schema.CallableSchema
+	var callableDesc any
+	cres := hx.Guard(func() hx.Result {
+		callable = p.buildCallable()
+		v, err := callable.SelfSerialize()
+		if err != nil {
+			return hx.ErrResult(err)
+		}
+		callableDesc = v
+		return dsOK(v)
+	})
+	idc := s.emit(dsCase{Op: "DESCRIBE", DPlugin: p, Ext: dsExtOf(dsStringsOf(p)), Note: "plugin:callable"}, cres)
+	if cres.R != "ok" {
+		s.finding(dsFinding{Prop: "C09", What: "a callable plugin schema cannot describe itself: " + cres.R + " " + cres.Msg, Cases: []int{idc}, Schema: p})
+	} else if hx.Canon(cres.V) != first {
+		s.finding(dsFinding{Prop: "C09", What: "the callable schema and the plain schema of the same plugin describe themselves differently", Cases: []int{id0, idc}, Schema: p,
+			Detail: []string{first, hx.Canon(cres.V)}})
+	}
 	legs := append([]dsLeg{}, dsLegs...)
 	legs = append(legs, dsLeg{"hello", dsCBOR})
+	if callableDesc != nil {
+		legs = append(legs, dsLeg{"callable", func(any) (any, error) { return callableDesc, nil }},
+			dsLeg{"server", func(any) (any, error) { return dsCBOR(callableDesc) }})
+	}
 	for _, leg := range legs {
 		w, err := leg.conv(desc)
 		if err != nil {
@@ -391,6 +510,8 @@ func dsPluginGroup(s *dsSink, d *dsGen) {
 			var err error
 			if leg.name == "hello" {
 				sc, err = dsReadSchema(desc)
+			} else if leg.name == "server" {
+				sc, err = dsHelloViaServer(callable)
 			} else {
 				sc, err = schema.UnserializeSchema(w)
 			}
@@ -427,11 +548,27 @@ func dsPluginGroup(s *dsSink, d *dsGen) {
 			for _, o := range st.V.Outputs {
 				dsBehaviour(s, d, o.V.Schema, os.OutputsValue[o.Key].SchemaValue, rs.OutputsValue[o.Key].SchemaValue, leg.name+":output", true)
 			}
+			// every signal handler and every signal emitter of the ORIGINAL step must be there, with a
+			// data schema that behaves like the original's
 			for _, h := range st.V.Handlers {
-				dsBehaviour(s, d, h.V.Data, os.SignalHandlersValue[h.Key].DataSchemaValue, rs.SignalHandlersValue[h.Key].DataSchemaValue, leg.name+":handler", true)
+				rh := rs.SignalHandlersValue[h.Key]
+				if rh == nil || rh.DataSchemaValue == nil {
+					s.finding(dsFinding{Prop: "C09", What: "the schema rebuilt from the description (" + leg.name + ") lost signal handler " + h.Key + " of step " + st.Key, Cases: []int{id1}, Schema: p})
+					continue
+				}
+				dsBehaviour(s, d, h.V.Data, os.SignalHandlersValue[h.Key].DataSchemaValue, rh.DataSchemaValue, leg.name+":handler", true)
 			}
 			for _, e := range st.V.Emitters {
-				dsBehaviour(s, d, e.V.Data, os.SignalEmittersValue[e.Key].DataSchemaValue, rs.SignalEmittersValue[e.Key].DataSchemaValue, leg.name+":emitter", true)
+				re := rs.SignalEmittersValue[e.Key]
+				if re == nil || re.DataSchemaValue == nil {
+					s.finding(dsFinding{Prop: "C09", What: "the schema rebuilt from the description (" + leg.name + ") lost signal emitter " + e.Key + " of step " + st.Key, Cases: []int{id1}, Schema: p})
+					continue
+				}
+				dsBehaviour(s, d, e.V.Data, os.SignalEmittersValue[e.Key].DataSchemaValue, re.DataSchemaValue, leg.name+":emitter", true)
+			}
+			if len(rs.SignalHandlersValue) != len(st.V.Handlers) || len(rs.SignalEmittersValue) != len(st.V.Emitters) {
+				s.finding(dsFinding{Prop: "C09", What: fmt.Sprintf("the schema rebuilt from the description (%s) has %d handlers and %d emitters in step %s, the original %d and %d",
+					leg.name, len(rs.SignalHandlersValue), len(rs.SignalEmittersValue), st.Key, len(st.V.Handlers), len(st.V.Emitters)), Cases: []int{id1}, Schema: p})
 			}
 		}
 	}
